@@ -88,6 +88,15 @@ func GenDef(r *rand.Rand, p *Profile) Cfg {
 			}
 		}
 	}
+	if p.Disp {
+		for i := range c.Nodes {
+			if c.Nodes[i].Fn && chance(r, 0.3) {
+				for k := 1 + r.Intn(3); k > 0; k-- {
+					c.Nodes[i].ReqArgs = append(c.Nodes[i].ReqArgs, pick(r, []string{"s", "s", "i", "f"}))
+				}
+			}
+		}
+	}
 	if p.Sugg > 0 {
 		for i := range c.Nodes {
 			if chance(r, p.Sugg) {
@@ -198,6 +207,9 @@ func GenDef(r *rand.Rand, p *Profile) Cfg {
 		}
 		if chance(r, p.Sugg) && kind != "bool" && kind != "incr" {
 			o.Sugg = Ts("dev", "devel", "prod")
+		}
+		if chance(r, p.Sugg/2) && kind != "bool" {
+			o.SuggFn = Ts("dyn1", "devfn", "prod")
 		}
 		if chance(r, p.Sugg/3) || chance(r, p.Descs/3) {
 			o.ArgName = T("thing")
